@@ -55,7 +55,9 @@ def gen(rng, count):
         else:
             n = min(n, 32)
             rec["n"] = n
-            R = C_LIGHT / (2 * math.pi * f0)
+            # bending radius: the iso-magnetic value or an explicit one (--BendingRadius): the CSR terms scale with
+            # c/(2 pi R), the wall with the revolution frequency
+            R = C_LIGHT / (2 * math.pi * f0) * rng.choice([1.0, 1.0, 0.6, 1.7])
             sw = dict(gap=rng.choice([0.0, -1.0, 0.03]), use_csr=rng.choice([0, 1]), s=rng.choice([0.0, 3.5e7]),
                       xi=rng.choice([0.0, -2.0]), coll=rng.choice([0.0, 0.005, 0.5]))
             rec["sw"] = sw
